@@ -15,7 +15,7 @@ RULE = (
 )
 EXPLANATION = "proof tier: VCs generated from the real AST, discharged by z3/cvc5/polynomial normal form; bounded tier labelled bounded_* and never counted as discharged"
 TRUSTED = [
-    "mixed-radix rule: (a + s*b) div s = b and (a + s*b) mod s = a for 0 <= a < s (digit regrouping in reshape)",
+    "mixed-radix rule: (a + s*b) div s = b and (a + s*b) mod s = a for 0 <= a < s (digit regrouping in reshape); re-proved in Lean 4 (lean/MixedRadix.lean, checked by setup_cmd)",
     "numpy primitives under assumed contracts: reshape(order=F/C), transpose(axes), a[idx,:], a[:,idx], np.array(list(range(N))), np.identity, np.argsort on concrete permutations, functools.reduce(iconcat) as one-level flatten",
     "S-int: Python/numpy integers are mathematical (no overflow)",
     "S-float-dims: np.round/np.sqrt/int()/astype(int)/x**(1/n) are exact on integral values (checked separately by the bounded clause ps.float_prelude for d^n <= 4096)",
